@@ -97,6 +97,10 @@ def judge_tiling(ctx, x, dt, L, windows, err, label, info):
 def gen_split_case(rng):
     fs = int(FS[int(rng.integers(0, len(FS)))])
     dt = 1.0 / fs
+    if rng.random() < 0.2:
+        # a sampling rate that is not a whole number of hertz (83.33, 33.33, 62.5 Hz; a clock-corrected 99.98 Hz)
+        dt = float(rng.choice([0.012, 0.03, 0.016, 0.010002000400080016, 0.007, 0.0123]))
+        fs = 1.0 / dt
     n = int(rng.choice([2, 3, 10, 57, 100, 601, 1000, 2000, 4097, 12000, 40000]))
     cls = str(rng.choice(["multiple", "multiple", "non-multiple", "record", "record+1", "record-1", "too-long", "random"]))
     if cls == "multiple":
